@@ -210,14 +210,14 @@ func bases() []proto.Message {
 	full := &T{
 		DefaultInt32: 3, DefaultString: "s", DefaultBool: true, DefaultBytes: []byte{1}, DefaultFloat: 1.5, DefaultDouble: 2.5,
 		OptionalFloat: f32(1), DefaultNestedMessage: &N{A: 1}, DefaultNestedEnum: testproto.TestAllTypes_BAR,
-		DefaultWellKnown:  &WK{DefaultTimestamp: &timestamppb.Timestamp{Seconds: t0}, DefaultDuration: &durationpb.Duration{Seconds: 10}},
-		RepeatedInt32:     []int32{1, 2},
-		RepeatedFloat:     []float32{1, 2},
-		RepeatedWellKnown: []*WK{{DefaultTimestamp: &timestamppb.Timestamp{Seconds: t0}}},
-		MapStringString:   map[string]string{"k": "v"},
-		MapInt32Float:     map[int32]float32{1: 1},
+		DefaultWellKnown:   &WK{DefaultTimestamp: &timestamppb.Timestamp{Seconds: t0}, DefaultDuration: &durationpb.Duration{Seconds: 10}},
+		RepeatedInt32:      []int32{1, 2},
+		RepeatedFloat:      []float32{1, 2},
+		RepeatedWellKnown:  []*WK{{DefaultTimestamp: &timestamppb.Timestamp{Seconds: t0}}},
+		MapStringString:    map[string]string{"k": "v"},
+		MapInt32Float:      map[int32]float32{1: 1},
 		MapStringWellKnown: map[string]*WK{"w": {DefaultDuration: &durationpb.Duration{Seconds: 5}}},
-		OneofDefault:      &testproto.TestAllTypes_OneofDefaultInt32{OneofDefaultInt32: 4},
+		OneofDefault:       &testproto.TestAllTypes_OneofDefaultInt32{OneofDefaultInt32: 4},
 	}
 	change := &traits.PullOnOffResponse_Change{Name: "n", ChangeTime: &timestamppb.Timestamp{Seconds: t0}, OnOff: &traits.OnOff{State: traits.OnOff_ON}}
 	return []proto.Message{&T{}, full, change}
@@ -293,7 +293,9 @@ func muts() []mut {
 		{"enum=BAZ", tm(func(t *T) { t.DefaultNestedEnum = testproto.TestAllTypes_BAZ })},
 		{"oneof=int5", tm(func(t *T) { t.OneofDefault = &testproto.TestAllTypes_OneofDefaultInt32{OneofDefaultInt32: 5} })},
 		{"oneof=int0", tm(func(t *T) { t.OneofDefault = &testproto.TestAllTypes_OneofDefaultInt32{OneofDefaultInt32: 0} })},
-		{"oneof=nested", tm(func(t *T) { t.OneofDefault = &testproto.TestAllTypes_OneofDefaultNestedMessage{OneofDefaultNestedMessage: &N{}} })},
+		{"oneof=nested", tm(func(t *T) {
+			t.OneofDefault = &testproto.TestAllTypes_OneofDefaultNestedMessage{OneofDefaultNestedMessage: &N{}}
+		})},
 		{"oneof=none", tm(func(t *T) { t.OneofDefault = nil })},
 		{"ts=nil", tm(func(t *T) { wk(t).DefaultTimestamp = nil })},
 		{"ts=t0", tm(func(t *T) { wk(t).DefaultTimestamp = &timestamppb.Timestamp{Seconds: t0} })},
@@ -340,7 +342,9 @@ func muts() []mut {
 		{"map=nil", tm(func(t *T) { t.MapStringString = nil })},
 		{"mapf[1]=1.0625", tm(func(t *T) { t.MapInt32Float = map[int32]float32{1: 1.0625} })},
 		{"mapf[1]=2", tm(func(t *T) { t.MapInt32Float = map[int32]float32{1: 2} })},
-		{"mapwk.w.dur=6s", tm(func(t *T) { t.MapStringWellKnown = map[string]*WK{"w": {DefaultDuration: &durationpb.Duration{Seconds: 6}}} })},
+		{"mapwk.w.dur=6s", tm(func(t *T) {
+			t.MapStringWellKnown = map[string]*WK{"w": {DefaultDuration: &durationpb.Duration{Seconds: 6}}}
+		})},
 		{"unknown=A", tm(func(t *T) { t.ProtoReflect().SetUnknown(unk([2]uint64{1000, 1})) })},
 		{"unknown=AB", tm(func(t *T) { t.ProtoReflect().SetUnknown(unk([2]uint64{1000, 1}, [2]uint64{1001, 2})) })},
 		{"unknown=BA", tm(func(t *T) { t.ProtoReflect().SetUnknown(unk([2]uint64{1001, 2}, [2]uint64{1000, 1})) })},
@@ -463,7 +467,9 @@ func checkLogic(fail func(k, m string)) int {
 		x, y pref.Value
 		name string
 	}
-	ts := func(s int64) pref.Value { return pref.ValueOfMessage((&timestamppb.Timestamp{Seconds: s}).ProtoReflect()) }
+	ts := func(s int64) pref.Value {
+		return pref.ValueOfMessage((&timestamppb.Timestamp{Seconds: s}).ProtoReflect())
+	}
 	ins := []in{
 		{fdF, pref.ValueOfFloat32(1), pref.ValueOfFloat32(1.1), "float 1 vs 1.1"},
 		{fdF, pref.ValueOfFloat32(1), pref.ValueOfFloat32(3), "float 1 vs 3"},
